@@ -354,6 +354,8 @@ class StreamSequence:
     def _set_streams(self, slice, streams, stacklevel):
         streams = [self._as_stream(i) for i in streams]
         all_streams = self._streams
+        if self._fixed_size: # Make sure size is not too big
+            n_missing(self._size, len(all_streams) - len(all_streams[slice]) + len(streams))
         for stream in all_streams[slice]: self._undock(stream)
         all_streams[slice] = streams
         stacklevel += 1
